@@ -41,12 +41,10 @@ def world_with_patch(root: str, patch: str) -> World:
     try:
         dst = os.path.join(tmp, SRC_REL)
         shutil.copytree(os.path.join(root, SRC_REL), dst, ignore=shutil.ignore_patterns('__pycache__'))
-        r = subprocess.run(['git', 'apply', '--unsafe-paths', f'--directory={tmp}', '--include=src/*', patch], cwd=tmp, capture_output=True, text=True)
+        r = subprocess.run(['git', 'apply', '--include=src/*', patch], cwd=tmp, capture_output=True, text=True,
+                           env=dict(os.environ, GIT_CEILING_DIRECTORIES=os.path.dirname(tmp)))
         if r.returncode != 0:
-            # fall back to patch(1)-like application relative to tmp
-            r = subprocess.run(['git', 'apply', '--include=src/*', patch], cwd=tmp, capture_output=True, text=True)
-            if r.returncode != 0:
-                raise AnalysisError(f'cannot apply {patch}: {r.stderr.strip()[:200]}')
+            raise AnalysisError(f'cannot apply {patch}: {r.stderr.strip()[:300]}')
         overrides = {}
         for dirpath, _, files in os.walk(dst):
             for fn in files:
@@ -55,6 +53,9 @@ def world_with_patch(root: str, patch: str) -> World:
                     rel = os.path.relpath(full, tmp)
                     with open(full, encoding='utf-8') as f:
                         overrides[rel] = f.read()
-        return World(root, overrides)
+        world = World(root, overrides)
+        if world.digest() == World(root).digest():
+            raise AnalysisError(f'{patch} changed nothing under src/furax')
+        return world
     finally:
         shutil.rmtree(tmp, ignore_errors=True)
